@@ -155,16 +155,19 @@ def _refute_monotone(val, order):
     ver = App("idx", (Sym("param:cfg"), Const("VERSION")))
     majors = [0, 1, 2, 127, 128, 255, 256, 300, 32767, 32768, 65535, 65536]
     smalls = [0, 1, 254, 255]
-    tuples = sorted({(a, b, c, d) for a in majors for b in smalls for c in smalls for d in smalls})
+    # a VERSION file may lack the tweak line: it then stands for tweak 0 and must order accordingly against files that have one
+    tuples = sorted({(a, b, c, d) for a in majors for b in smalls for c in smalls for d in smalls + [None]},
+                    key=lambda t: (t[0], t[1], t[2], t[3] or 0, t[3] is not None))
     prev = None
     for t in tuples:
-        env = {ver: {k: str(v) for k, v in zip(order, t)}}
+        env = {ver: {k: str(v) for k, v in zip(order, t) if v is not None}}
         try:
             v = teval(val, env)
             v = int(v) if isinstance(v, str) else v
         except (Unknown, Raised, ValueError, TypeError):
             return None
-        if prev is not None and not (prev[1] < v):
+        same_key = prev is not None and (prev[0][:3], prev[0][3] or 0) == (t[:3], t[3] or 0)
+        if prev is not None and not (prev[1] < v) and not (same_key and prev[1] == v):
             return prev[0], t, prev[1], v
         prev = (t, v)
     return None
